@@ -358,8 +358,10 @@ class Language(object):
         while ops:
             op = ops.pop()
             assert len(types) >= op.arity
-            t = op(*reversed(types[:op.arity]))
-            types = types[op.arity:]
+            # The parameters of `op` are the types decoded most recently
+            n = len(types) - op.arity
+            t = op(*reversed(types[n:]))
+            types = types[:n]
             types.append(t)
         assert len(types) == 1
         return types[0]
